@@ -176,7 +176,7 @@ func TestSessCloseRace(t *testing.T) {
 			w.Ev(map[string]any{"ev": "teardown", "leaks": leaks, "backlog_leaks": backlogLeaks, "unclaimed": unclaimed, "pool_gets": gets, "pool_puts": puts,
 				"pool_outstanding": outstanding, "pool_anomalies": anomalies})
 			tf.WriteTrace(map[string]any{"cfg": cfg, "label": fmt.Sprintf("closerace%d", r), "seed": seed, "loss": 15, "dup": 0, "delay": 8,
-				"closemid": true, "peerfec": [2]int{0, 0}, "faulty": false, "clean": false}, w.Tr)
+				"closemid": true, "peerfec": [2]int{0, 0}, "faulty": false, "clean": false, "paced": paced}, w.Tr)
 			sum.Runs++
 			sum.Events += w.Tr.Len()
 			if gated || paced {
